@@ -110,6 +110,9 @@ type Options struct {
 	OptionsFilter    bool   // install Container.OPTIONSFilter as first container filter
 	Encoding         bool
 	Recover          bool
+	// SwapRouterFirst installs the other router first and then the intended one (a
+	// configuration history: nothing of the replaced router may stay behind).
+	SwapRouterFirst bool
 	// Setup runs right after the container was created (before the recording filters are added).
 	Setup func(c *restful.Container)
 	// Services is filled by Build: the WebService values in table order.
@@ -205,6 +208,13 @@ func Build(t model.TableSpec, opt *Options, rec *Recorder, h RouteHandler) (c *r
 		}
 	}()
 	c = restful.NewContainer()
+	if opt.SwapRouterFirst {
+		if opt.Router == model.JSR311 {
+			c.Router(restful.CurlyRouter{})
+		} else {
+			c.Router(restful.RouterJSR311{})
+		}
+	}
 	if opt.Router == model.JSR311 {
 		c.Router(restful.RouterJSR311{})
 	} else {
